@@ -482,6 +482,33 @@ fn strip_locations(j: &mut J) {
     }
 }
 
+/// any cfn-guard command line executed in-process: "<code>:<stdout>" or an error / panic marker
+pub fn cli_in_process(args: &[&str], stdin: &str) -> String {
+    use clap::Parser;
+    let mut full = vec!["cfn-guard"];
+    full.extend_from_slice(args);
+    let r = catch_unwind(AssertUnwindSafe(|| {
+        let cmd = cfn_guard::commands::CfnGuard::try_parse_from(full).map_err(|e| format!("args: {}", e))?;
+        let mut w = cfn_guard::utils::writer::Writer::new_with_err(
+            cfn_guard::utils::writer::WriteBuffer::Vec(vec![]),
+            cfn_guard::utils::writer::WriteBuffer::Vec(vec![]),
+        )
+        .map_err(|e| e.to_string())?;
+        let mut rd = cfn_guard::utils::reader::Reader::new(cfn_guard::utils::reader::ReadBuffer::Cursor(
+            std::io::Cursor::new(stdin.as_bytes().to_vec()),
+        ));
+        match cmd.execute(&mut w, &mut rd) {
+            Ok(code) => Ok(format!("{}:{}", code, w.into_string().map_err(|e| e.to_string())?)),
+            Err(e) => Err(format!("{}", e)),
+        }
+    }));
+    match r {
+        Err(p) => format!("panic:{}", panic_msg(p)),
+        Ok(Err(e)) => format!("err:{}", e),
+        Ok(Ok(s)) => s,
+    }
+}
+
 /// `parse-tree --print-json` output as text (locations included), or an error / panic marker
 pub fn parse_tree_text(rules: &str) -> String {
     use clap::Parser;
